@@ -346,6 +346,98 @@ def judge(ctx, traces, what, canaries=True):
         ctx.extra["canaries_rejected"] = ctx.extra.get("canaries_rejected", 0) + len(cans)
 
 
+# ---------------------------------------------------------------------------------------------------------------
+# spec growth beyond C19: the SmartHome cloud client (spec/SmartHome.tla) - conformance drift only, never a verdict
+# ---------------------------------------------------------------------------------------------------------------
+def smarthome_replay(scn, seed):
+    from msmart.cloud import SmartHomeCloud, CloudError
+    from msmart.const import DeviceType
+    import random
+    rng = random.Random(seed)
+    cn = seed % 4 == 3
+    region_mode = seed % 5 == 0
+    if region_mode:
+        region = rng.choice(["DE", "KR", "US"])
+        account, password = SmartHomeCloud.CLOUD_CREDENTIALS[region]
+        kw = {}
+    else:
+        region = "US"
+        account, password = rand_text(rng, rng.randrange(3, 30)), rand_text(rng, rng.randrange(1, 24))
+        kw = dict(account=account, password=password)
+    vloop.install_clock()
+    loop = vloop.new_loop()
+    vloop.Net(loop)
+    srv = cloudsrv.ModelSmartHome(account, password, rng=rng, cn=cn)
+    events = srv.events
+
+    async def go():
+        cloud = SmartHomeCloud(region, use_china_server=cn, get_async_client=srv.client, **kw)
+        k = 0
+        while k < len(scn):
+            st = scn[k]
+            k += 1
+            script = []
+            while k < len(scn) and scn[k]["a"] in ("att", "file"):
+                script.append(scn[k]["out"])
+                k += 1
+            srv.script = script
+            none = {"name": [], "data": []}
+            try:
+                if st["a"] in ("login", "loginf"):
+                    events.append({"ev": "call", "op": "login", "force": st["a"] == "loginf", "sn": [], "dtype": 0})
+                    await cloud.login(force=st["a"] == "loginf")
+                    events.append({"ev": "ret", "r": "ok", **none})
+                else:
+                    sn = "".join(rng.choice(string.ascii_uppercase + string.digits) for _ in range(rng.choice([32, 32, 22, 17, 12, 40])))
+                    dt = rng.choice(list(DeviceType))
+                    srv.sn = sn
+                    events.append({"ev": "call", "op": st["a"], "force": False, "sn": B(sn.encode()), "dtype": int(dt)})
+                    name, data = await (cloud.get_protocol_lua(dt, sn) if st["a"] == "lua" else cloud.get_plugin(dt, sn))
+                    events.append({"ev": "ret", "r": "ok", "name": B(str(name).encode()), "data": B(data.encode("utf-8") if isinstance(data, str) else bytes(data))})
+            except CloudError:
+                events.append({"ev": "ret", "r": "cloud_error", **none})
+            except Exception as ex:  # noqa: BLE001 - code under test
+                events.append({"ev": "ret", "r": "other:" + type(ex).__name__, **none})
+    vloop.run(loop, go())
+    return {"account": B(account.encode()), "password": B(password.encode()), "cn": cn, "events": events, "scn": scn}
+
+
+def smarthome_runs(ctx):
+    consts = "CONSTANTS\nRetries = 3\nOutcomes <- AllOutcomes\nMaxCalls = %d\n"
+    ctx.mc("MC_SmartHome", "SPECIFICATION SSpec\n" + consts % ctx.pick(4, 6) +
+           "INVARIANT Budget\nINVARIANT SessNeedsLid\nPROPERTY SessOnlyByLogin\nPROPERTY FileAfterApi\nCHECK_DEADLOCK FALSE\n", name="C19_sh_mc", timeout=1200)
+    r = run_tlc("Gen_SmartHome", "INIT GInit\nNEXT GNext\n" + consts % 2 + "CONSTRAINT GEmit\nCHECK_DEADLOCK FALSE\n", name="C19_sh_gen", workers=1, timeout=1200, heap="4g")
+    ctx.checker_cmds.append(r.cmd)
+    scn = sorted({pr[1] for pr in r.prints if isinstance(pr, list) and pr and pr[0] == "SCN"})
+    if not scn:
+        raise MachineryError("Gen_SmartHome produced no scenario")
+    total = len(scn)
+    scn = [json.loads(x) for x in (ctx.rng.sample(scn, ctx.pick(250, 6000)) if total > ctx.pick(250, 6000) else scn)]
+    traces = [smarthome_replay(s, ctx.seed * 17 + k) for k, s in enumerate(scn)]
+    cans = []
+    src = next(t for t in traces if any(e["ev"] == "req" and e["out"] == "ok" and bytes(e["alias"]).endswith(b"/mj/user/login") for e in t["events"]))
+    j = next(i for i, e in enumerate(src["events"]) if e["ev"] == "req" and e["out"] == "ok" and bytes(e["alias"]).endswith(b"/mj/user/login"))
+    c = copy.deepcopy(src); c["events"][j]["hdr"]["sign"][5] ^= 1; cans.append(c)                    # signature altered
+    c = copy.deepcopy(src); c["events"][j]["body"]["iampwd"][7] ^= 1; cans.append(c)                # iam password hash altered
+    src2 = next((t for t in traces if any(e["ev"] == "ret" and e["r"] == "ok" and e["data"] for e in t["events"])), None)
+    if src2 is not None:
+        j = next(i for i, e in enumerate(src2["events"]) if e["ev"] == "ret" and e["r"] == "ok" and e["data"])
+        c = copy.deepcopy(src2); c["events"][j]["data"][0] ^= 1; cans.append(c)                     # other file contents
+    bad = ctx.validate_chains("Trace_SmartHome", [{k: t[k] for k in ("account", "password", "cn", "events")} for t in traces + cans],
+                              name="C19_sh", consts=consts % 1000)
+    n = len(traces)
+    if len([i for i in bad if i >= n]) != len(cans):
+        raise MachineryError("Trace_SmartHome accepted a canary")
+    for i, clause in sorted(bad.items()):
+        if i >= n:
+            continue
+        if clause.startswith("harness") or clause.startswith("stuck"):
+            raise MachineryError(f"Trace_SmartHome could not judge trace {i}: {clause}")
+        ctx.drift.append({"what": "SmartHome cloud (beyond the listed properties): " + clause, "scn": [(s["a"], s["out"]) for s in traces[i]["scn"]]})
+    ctx.extra["smarthome_cloud_growth"] = {"tlc_generated_behaviours": total, "replayed": n, "accepted": n - len([i for i in bad if i < n]),
+                                           "canaries_rejected": len(cans)}
+
+
 def run(ctx: Ctx) -> int:
     ctx.mc("MC_Cloud", "SPECIFICATION CSpec\nCONSTANTS\nRetries = 3\nOutcomes <- AllOutcomes\nTokenLists <- MCLists\nMaxCalls = %d\n"
            "INVARIANT Budget\nINVARIANT OnlyMatching\nINVARIANT AbsentIsError\nCHECK_DEADLOCK FALSE\n" % ctx.pick(3, 5), name="C19_mc", timeout=3000)
@@ -359,6 +451,7 @@ def run(ctx: Ctx) -> int:
     n, bad, atr = auto_connect_runs(ctx)
     judge(ctx, atr, "auto_connect", canaries=False)
     ctx.extra["auto_connect_runs"] = n
+    smarthome_runs(ctx)
     t0 = traces[0]
     ctx.sample({"scenario": [(s["a"], s["out"]) for s in t0["scn"]], "requests": [bytes(e["path"]).decode() + " -> " + e["out"] for e in t0["events"] if e["ev"] == "req"]})
     return ctx.finish(
